@@ -18,6 +18,10 @@ var (
 	// GoroutineEvents records start/exit of coroutine goroutines by thread id.
 	goroutineStarts = map[uintptr]int{}
 	goroutineExits  = map[uintptr]int{}
+	// live coroutine goroutines (started, not yet exited) by thread
+	liveThreads = map[*rt.Thread]bool{}
+	totalStarts int64
+	totalExits  int64
 	pointCounts     = map[string]int64{}
 )
 
@@ -36,8 +40,12 @@ func init() {
 		repMu.Lock()
 		if ev == "start" {
 			goroutineStarts[id]++
+			liveThreads[t] = true
+			totalStarts++
 		} else {
 			goroutineExits[id]++
+			delete(liveThreads, t)
+			totalExits++
 		}
 		repMu.Unlock()
 	}
@@ -129,4 +137,38 @@ func OpCounts() map[string]uint64 {
 		}
 	}
 	return m
+}
+
+// DeadThreadsWithGoroutine returns how many coroutines are dead (finished,
+// failed or closed) while their goroutine has not exited, after giving the
+// goroutines up to the given number of scheduler yields (1 ms sleeps) to get
+// there; suspended coroutines legitimately keep their goroutine.  It also
+// returns the numbers of goroutine starts and exits seen so far.
+func DeadThreadsWithGoroutine(maxPolls int) (leaked int, starts, exits int64) {
+	for i := 0; ; i++ {
+		repMu.Lock()
+		leaked = 0
+		for t := range liveThreads {
+			if t.Status() == rt.ThreadDead {
+				leaked++
+			}
+		}
+		starts, exits = totalStarts, totalExits
+		repMu.Unlock()
+		if leaked == 0 || i >= maxPolls {
+			return
+		}
+		runtime.Gosched()
+		time.Sleep(time.Millisecond)
+	}
+}
+
+// ForgetThreads drops the bookkeeping of coroutine goroutines (between cases:
+// suspended coroutines of a finished case stay blocked for ever by design).
+func ForgetThreads() {
+	repMu.Lock()
+	liveThreads = map[*rt.Thread]bool{}
+	goroutineStarts = map[uintptr]int{}
+	goroutineExits = map[uintptr]int{}
+	repMu.Unlock()
 }
